@@ -22,6 +22,9 @@
 (*  Notified / BodyDone   select arms                 SelNotify / SelDone   *)
 (*  Release    deferred, before sem.Release           [AwaitBody] ReleaseSem*)
 (*  Return, BodyBegin, BodyEnd(cx)   driver                                 *)
+(*  (none)     the deadline of a body's ctx passes    Timeout: internal,    *)
+(*             placed before a BodyEnd that reports cx = 1 although no      *)
+(*             cancel() has happened for that body                          *)
 (*                                                                          *)
 (* Deviation: the two lock-free reads of the counter in the wait loop are   *)
 (* not linearization points; their outcome is taken from the next event     *)
@@ -59,6 +62,12 @@ TraceInternalAwait ==
     /\ l <= Len(TraceLog) /\ Ev.ev = "Release" /\ Ev.i \in Invs
     /\ AwaitBody(Ev.i) /\ l' = l /\ UNCHANGED early
 
+\* internal: the body saw its context done although the code has not cancelled it: the deadline passed
+TraceInternalTimeout ==
+    /\ l <= Len(TraceLog) /\ Ev.ev = "BodyEnd" /\ Ev.i \in Invs /\ Ev.cx = 1
+    /\ Ev.n = Len(bodies[Ev.i])
+    /\ Timeout(Ev.i) /\ l' = l /\ UNCHANGED early
+
 TraceDo == IsEvent("Do") /\ Do /\ UNCHANGED early
 TraceDone == IsEvent("Done") /\ Done /\ UNCHANGED early
 TraceExpire == IsEvent("Expire") /\ Expire /\ UNCHANGED early
@@ -86,10 +95,11 @@ TraceBodyEnd ==
     /\ IsInv("BodyEnd") /\ BodyEnd(Ev.i, Ev.n) /\ UNCHANGED early
     /\ Ev.cx = 1 => bodies[Ev.i][Ev.n].cx      \* a body sees its context cancelled only after cancel()
 \* driver verdict events (bounded waits): decided by the monitor only
-TraceOther == (IsEvent("Stuck") \/ IsEvent("CxTimeout")) /\ UNCHANGED <<vars, early>>
+\* CallBegin / CallEnd: marks of the caller driver (harness/fs)
+TraceOther == (IsEvent("Stuck") \/ IsEvent("CxTimeout") \/ IsEvent("CallBegin") \/ IsEvent("CallEnd")) /\ UNCHANGED <<vars, early>>
 
 TraceNext ==
-    \/ TraceReset \/ TraceInternalDecr \/ TraceInternalAwait
+    \/ TraceReset \/ TraceInternalDecr \/ TraceInternalAwait \/ TraceInternalTimeout
     \/ TraceDo \/ TraceDone \/ TraceExpire \/ TraceDecrEnd \/ TraceBroadcast \/ TraceBroadcastE
     \/ TraceLoad \/ TraceCondLock \/ TraceCondWait \/ TraceAcquire \/ TraceAcquired \/ TraceDecided
     \/ TraceSelect \/ TraceNotified \/ TraceBodyDone \/ TraceRelease \/ TraceReturn
